@@ -1,6 +1,7 @@
 package h
 
 import (
+	"time"
 	"crypto/sha256"
 	"encoding/hex"
 	"encoding/json"
@@ -336,8 +337,14 @@ func firstSig(o *Outcome, want string) (string, *Violation) {
 
 func shrinkCase(c *Case, sig string, run func(*Case) *Outcome, budget int) (*Case, int) {
 	tries := 0
+	// bounded in wall-clock time as well: a scenario under controlled scheduling can take seconds
+	limitS := int64(90)
+	if c.Build == "lockstep" {
+		limitS = 40
+	}
+	deadline := time.Now().Add(time.Duration(envInt("VERIF_SHRINK_S", limitS)) * time.Second)
 	reproduces := func(cand *Case) bool {
-		if tries >= budget {
+		if tries >= budget || time.Now().After(deadline) {
 			return false
 		}
 		tries++
